@@ -15,7 +15,7 @@ mod report;
 mod scalar;
 mod xq;
 
-use report::{Cfg, Monitor, Profile, Tier};
+use report::{Cfg, Profile, Tier};
 use std::time::Instant;
 
 #[global_allocator]
